@@ -90,6 +90,12 @@ def paramclass(cls: Type[T]) -> Type[T]:
     if annotations is None:
         annotations = cls.__annotations__ = dict()
 
+    # Fields written as annotations alone (`width: int`) would become constructor arguments which are not parameters
+    for name in annotations:
+        if name not in params:
+            msg = f"Invalid annotated field {name} in paramclass {cls}. All fields should be `hdl21.Param`s, as in `{name} = h.Param(dtype=..., desc=...)`."
+            raise RuntimeError(msg)
+
     # Translate the Params into dataclass-compatible annotations
     for name, param in params.items():
         # Set the type-annotation
